@@ -336,13 +336,13 @@ func TestRoundsOfExactlyBatchSizeMultiples(t *testing.T) {
 		next := func() uint64 { x ^= x << 13; x ^= x >> 7; x ^= x << 17; return x }
 		targets := []int{256, 512, 255, 257}
 		if ev.Thorough() {
-			targets = append(targets, 1000)
+			targets = append(targets, 1000, 4096)
 		}
 		for _, target := range targets {
 			content := map[string][]byte{}
 			var ops []mptkit.Op
 			nodes := 0
-			for tries := 0; nodes != target && tries < 200000; tries++ {
+			for tries := 0; nodes != target && tries < 400000; tries++ {
 				r := next()
 				p := fmt.Sprintf("%06x", r&0xffffff)
 				if _, dup := content[p]; dup {
@@ -390,6 +390,63 @@ func TestRoundsOfExactlyBatchSizeMultiples(t *testing.T) {
 				cl = fmt.Sprintf("round-built-for-%d-nodes-saved-%d", target, saved)
 			}
 			ev.Case(fmt.Sprintf("exact/%d", target), (target%256 == 0 || target%1000 == 0) && saved == target, cl)
+		}
+	})
+}
+
+// Volume: a round that changes more than sixteen thousand nodes, and a round whose values add up to more than 64 MiB
+// (eight values of 8.5 MiB), each followed by a small round; everything must read back from the store alone.
+func TestRoundsOfGreatVolume(t *testing.T) {
+	ev.Guard(t, "TestRoundsOfGreatVolume", func() {
+		x := ev.SeedFor("TestRoundsOfGreatVolume") | 1
+		next := func() uint64 { x ^= x << 13; x ^= x >> 7; x ^= x << 17; return x }
+		for _, kind := range []string{"many-nodes", "many-bytes"} {
+			content := map[string][]byte{}
+			var ops []mptkit.Op
+			if kind == "many-nodes" {
+				for len(content) < 14000 {
+					r := next()
+					p := fmt.Sprintf("%08x", r&0xffffffff)
+					if _, dup := content[p]; dup {
+						continue
+					}
+					v := []byte{byte(r >> 32), byte(r >> 40), 0x3a, byte(r >> 48)}
+					content[p] = v
+					ops = append(ops, mptkit.Op{Kind: "ins", Path: p, Val: fmt.Sprintf("%x", v)})
+				}
+			} else {
+				for i := 0; i < 8; i++ {
+					p := fmt.Sprintf("%02x%02x", next()&0xff, i)
+					v := bytes.Repeat([]byte{byte(i + 1), 0x3a, byte(next())}, 8912896/3+1)[:8912896]
+					content[p] = v
+					ops = append(ops, mptkit.Op{Kind: "ins", Path: p, Val: fmt.Sprintf("%x", v)})
+				}
+			}
+			dir := rounds.NewDir()
+			saved := -1
+			rounds.OnBeforeSave = func(n int) { saved = n }
+			root, _, err := rounds.ExecRound(dir, nil, rounds.Round{Version: 1, Txns: []rounds.Txn{{Ops: ops, Merge: true}}})
+			rounds.OnBeforeSave = nil
+			if err != nil {
+				t.Fatalf("%s round: %v", kind, err)
+			}
+			if err := rounds.CheckReadable(dir, rounds.Saved{Version: 1, Root: root, Model: content}); err != nil {
+				t.Fatalf("a round of great volume (%s: %d keys, %d changed nodes) is not complete in the store: %v", kind, len(content), saved, err)
+			}
+			content2 := mptkit.CopyContent(content)
+			content2["0a0b0c0d"] = []byte{1}
+			root2, _, err := rounds.ExecRound(dir, root, rounds.Round{Version: 2, Txns: []rounds.Txn{{Ops: []mptkit.Op{{Kind: "ins", Path: "0a0b0c0d", Val: "01"}}, Merge: true}}})
+			if err != nil {
+				t.Fatalf("round after the %s round: %v", kind, err)
+			}
+			for _, sv := range []rounds.Saved{{Version: 1, Root: root, Model: content}, {Version: 2, Root: root2, Model: content2}} {
+				if err := rounds.CheckReadable(dir, sv); err != nil {
+					t.Fatalf("after the round following the %s round: %v", kind, err)
+				}
+			}
+			mptkit.DropDir(dir)
+			ev.Case("volume/"+kind, true, "round-of-great-volume:"+kind)
+			ev.Extra("changed_nodes_"+kind, saved)
 		}
 	})
 }
